@@ -424,8 +424,21 @@ def arrival_orders(scripts: List[str], limit: int, seed: int) -> List[List[int]]
     return out
 
 
+def exc_origin(exc: BaseException) -> str:
+    """'harness' when the exception was raised by this file / the harness (a scenario or machinery bug), else 'library'"""
+    tb = exc.__traceback__
+    last = None
+    while tb is not None:
+        last = tb.tb_frame.f_code.co_filename
+        tb = tb.tb_next
+    return "harness" if last is None or "/harness/" in last or last.endswith("obs_common.py") else "library"
+
+
 def finish_trace(ds: detsched.DetSched) -> List[Dict[str, Any]]:
     tr = list(ds.trace)
+    for t in ds.threads:
+        if t.exc is not None and exc_origin(t.exc) == "library" and "downstream callback" not in repr(t.exc):
+            tr.append({"e": "exc", "th": th_index(t.name), "what": repr(t.exc)[:200]})
     if ds.deadlocked:
         tr.append({"e": "deadlock", "th": 0, "waiting": {t.name: t.waiting_on for t in ds.threads if t.started and not t.done}})
     if ds.step_limit_hit:
@@ -469,8 +482,9 @@ def ser_explore(args) -> Dict[str, Any]:
             for t in ds.threads:
                 if t.exc is not None:
                     stats["thread_exc"] += 1
+                    stats["harness_exc"] = stats.get("harness_exc", 0) + int(exc_origin(t.exc) == "harness")
                     if len(exc_samples) < 3:
-                        exc_samples.append(f"{t.name}: {t.exc!r}"[:300])
+                        exc_samples.append(f"{t.name}: {t.exc!r} ({exc_origin(t.exc)})"[:300])
             key = json.dumps(tr, sort_keys=True)
             if key not in traces:
                 traces[key] = [tr, 0, [d[1] for d in ds.decisions], lines]
@@ -602,7 +616,8 @@ def ser_scenarios(tier: str, seed: int) -> List[Dict[str, Any]]:
         add("merge_mc1", ("NE", "NC"), 4)
         add("merge_mc2", ("NC", "NE", "NC"), 3)
     else:
-        outer = [("NE", "NNC"), ("NC", "NNC"), ("NNE", "NC"), ("NNC", "NE"), ("NE", "NE"), ("NNC", "NC", "NE"), ("NNE", "NNC", "NC"),
+        # (the outer source hands out one inner source per element: at most len(scripts) - 1 elements)
+        outer = [("NE", "NNC"), ("NC", "NNC"), ("NE", "NC"), ("NC", "NE"), ("NE", "NE"), ("NNC", "NC", "NE"), ("NNE", "NNC", "NC"),
                  ("NNC", "NE", "NNC")]
         for op in ("merge_all", "flat_map", "merge_mc1", "merge_mc2"):
             for scr in outer:
@@ -680,10 +695,10 @@ def ser_run(pid: str, tier: str, rule: str, assumptions: List[str]) -> int:
             if fam in ("window", "merge_outer"):
                 if n < 1:
                     lines_count[key] = n + 1
-                    jobs.append((sc, 2, 1500, 0, ck.seed, True))
-            elif len(sc["scripts"]) == 2 and n < 2:
+                    jobs.append((sc, 2, 1200, 0, ck.seed, True))
+            elif len(sc["scripts"]) == 2 and n < (2 if sc["scripts"][0] == list("NNC") else 1):
                 lines_count[key] = n + 1
-                jobs.append((sc, 2, 4500, 0, ck.seed, True))
+                jobs.append((sc, 2, 3500, 0, ck.seed, True))
         else:
             jobs.append((sc, bound, 3000, 100, ck.seed, True))
             jobs.append((sc, bound, 800, 30, ck.seed + 1, False))
@@ -715,6 +730,8 @@ def ser_run(pid: str, tier: str, rule: str, assumptions: List[str]) -> int:
         total += r["stats"]["executions"]
         for k in ("deadlocks", "steplimit", "thread_exc"):
             ck.count("conc_" + k, r["stats"][k])
+        if r["stats"].get("harness_exc"):
+            raise RuntimeError(f"exception raised by the harness inside a logical thread (scenario {r['scenario']}): {r['exc_samples']}")
         complete[str(r["complete_bound"])] = complete.get(str(r["complete_bound"]), 0) + 1
         exc_samples += r["exc_samples"]
         for (tr, n, dec, lines) in r["traces"]:
@@ -1022,6 +1039,9 @@ def so_traces(ds: detsched.DetSched) -> List[List[Dict[str, Any]]]:
         end.append({"e": "steplimit", "th": 0})
     else:
         end.append({"e": "idle", "th": 0})
+    for t in ds.threads:
+        if t.exc is not None and "downstream callback" not in repr(t.exc) and exc_origin(t.exc) == "library":
+            end.insert(0, {"e": "exc", "th": th_index(t.name), "what": repr(t.exc)[:200]})
     out = []
     for k in range(max(rig.n_so, rig.n_sink)):
         tr = [dict(e) for e in ds.trace if e.get("so") == k]
@@ -1049,8 +1069,9 @@ def so_explore(args) -> Dict[str, Any]:
             for t in ds.threads:
                 if t.exc is not None and "downstream callback" not in repr(t.exc):
                     stats["unexpected_thread_exc"] += 1
+                    stats["harness_exc"] = stats.get("harness_exc", 0) + int(exc_origin(t.exc) == "harness")
                     if len(exc_samples) < 3:
-                        exc_samples.append(f"{t.name}: {t.exc!r}"[:300])
+                        exc_samples.append(f"{t.name}: {t.exc!r} ({exc_origin(t.exc)})"[:300])
             for so_id, tr in enumerate(so_traces(ds)):
                 key = json.dumps(tr, sort_keys=True)
                 if key not in traces:
@@ -1127,15 +1148,15 @@ def so_scenarios(tier: str, seed: int) -> List[Dict[str, Any]]:
             out.append({"kind": kind, "scripts": [list(x) for x in scripts], "sched": sched, "raise_at": raise_at, "order": order,
                         "budget": budget})
     if quick:
-        add("observe_on", ("NNC",), "eventloop", 0, 1, 400)
-        add("observe_on", ("NNNE",), "eventloop", 0, 1, 400)
-        add("observe_on", ("NNC",), "eventloop", 2, 1, 300)
-        add("observe_on", ("NCN",), "eventloop_exit", 0, 1, 300)
-        add("observe_on", ("NNC",), "newthread", 0, 1, 300)
-        add("observe_on", ("NNC",), "timeout", 1, 1, 300)
-        add("observe_on_merge", ("NC", "NE"), "eventloop", 0, 3, 300)
-        add("replay", ("NNC", "U"), "eventloop", 0, 4, 300)
-        add("replay", ("NNE", "U"), "newthread", 2, 2, 300)
+        add("observe_on", ("NNC",), "eventloop", 0, 1, 300)
+        add("observe_on", ("NNNE",), "eventloop", 0, 1, 250)
+        add("observe_on", ("NNC",), "eventloop", 2, 1, 200)
+        add("observe_on", ("NCN",), "eventloop_exit", 0, 1, 200)
+        add("observe_on", ("NNC",), "newthread", 0, 1, 250)
+        add("observe_on", ("NNC",), "timeout", 1, 1, 200)
+        add("observe_on_merge", ("NC", "NE"), "eventloop", 0, 2, 250)
+        add("replay", ("NNC", "U"), "eventloop", 0, 3, 250)
+        add("replay", ("NNE", "U"), "newthread", 2, 2, 200)
     else:
         for sched in ("eventloop", "eventloop_exit", "newthread", "timeout"):
             for scr in ("C", "NC", "NNC", "NNNC", "NNNNC", "NNE", "NCN", "NEC", "NNN"):
@@ -1234,6 +1255,8 @@ def so_run(pid: str, tier: str, rule: str, assumptions: List[str]) -> int:
         total += r["stats"]["executions"]
         for k in ("deadlocks", "steplimit", "unexpected_thread_exc"):
             ck.count("conc_" + k, r["stats"][k])
+        if r["stats"].get("harness_exc"):
+            raise RuntimeError(f"exception raised by the harness inside a logical thread (scenario {r['scenario']}): {r['exc_samples']}")
         complete[str(r["complete_bound"])] = complete.get(str(r["complete_bound"]), 0) + 1
         exc_samples += r["exc_samples"]
         for (tr, n, dec, lines, so_id) in r["traces"]:
